@@ -2,6 +2,20 @@
 SOURCE_COMMITS = []
 NOT_APPLICABLE = {}
 CHECKS = {
+ "C14": {
+  "text": "AuditTrail.tla (per-workspace audit records with references, generation on execution from the dependency trails, skip, "
+          "download/upload/share copies; <=3 invocations x <=2 edits x two workspaces/archive/sandbox/shared store) is model-checked "
+          "exhaustively for Closed, Complete (with a ghost of what was used at execution time), Truthful and ArtifactIdFunctional; "
+          "counterexample histories of six weakenings, TLC-simulated AuditTrail histories and BobBuild develop/release histories "
+          "are replayed with real bob runs (tool, sandbox, shared package, file archive, git) and every audit.json.gz and uploaded "
+          "artifact is checked after every invocation: documented record structure, closure, completeness against the dependency "
+          "trails, truthfulness against live ids/hash/SCM state, independently recomputed artifact-ids. Bounded model checking plus "
+          "conformance on generated histories, not a proof.",
+  "design_ref": "DESIGN.md section 4, C14",
+  "note": "bob.utils.hashDirectory (decided by C11); Bob's parser and getDigestCoro for live Variant-Ids and recomputed Build-Ids; own schema and digest implementations in checks/c14_audit.py; git CLI; fingerprinted Build-Ids not recomputed",
+  "technique": "TLA+ mechanism model + invariants with ghost state; TLC-generated histories (simulate + counterexamples of weakened models) replayed on generated real projects; independent oracles on the real audit files",
+ },
+
  "C12": {
   "text": "GitCheckout.tla (upstream DAG of 4 commits / 2 branches / movable tag in two repositories, recipe git spec url x branch|tag|"
           "commit x dir, optional nested url/import SCM, work repository with HEAD/local branches/remote-tracking refs/dirty/untracked/"
